@@ -94,7 +94,7 @@ func init() {
 			return 1500
 		},
 		ChunkSize:   50,
-		Rule:        "PRNG-drawn episodes of exactly-once publishes (1-16 messages, 1-2 goroutines) under the fault script of C01, weighted towards lost acknowledgements, read failures and transient store errors so that each of PUBREC, PUBREL, PUBCOMP gets lost in either direction; the reference broker forwards a QoS 2 message once per identifier cycle and its delivery log is the end-to-end oracle. Non-trivial: at least one message saw a new connection between its PUBREL record and its completion; distinct by fault multiset, connections and messages.",
+		Rule:        "PRNG-drawn episodes of exactly-once publishes (1-16 messages, 1-2 goroutines) under the fault script of C01, weighted towards lost acknowledgements, read failures and transient store errors so that each of PUBREC, PUBREL, PUBCOMP gets lost in either direction; the reference broker forwards a QoS 2 message once per identifier cycle and its delivery log is the end-to-end oracle. 1 in 6 episodes runs on VolatileSession (wire-level oracle), 1 in 60 really completes 16,38x publishes and then restarts (C02's adoption oracle, two generations) on every stop point whose pending range lies across the identifier wrap, with 0-7 transfers at the PUBREL stage. Non-trivial: at least one message saw a new connection between its PUBREL record and its completion; distinct by fault multiset, connections and messages.",
 		Assumptions: []string{"the broker forwards a QoS 2 PUBLISH on first receipt and again only after PUBREL ended the cycle (method A of the specification)", "see C01"},
 		Run: func(c *run.Ctx) {
 			if c.Case == 0 {
@@ -105,6 +105,12 @@ func init() {
 					c.Trigger("full-window-16384")
 					c.Sample(map[string]any{"scenario": "ExactlyOnceMax=16392, broker withholds every PUBREC, publish until refusal", "accepted": len(all)})
 				}
+				return
+			}
+			if c.Case%60 == 9 {
+				// restarts with PUBREL records below the identifier wrap and PUBLISH records above it
+				wrapRestart(c, []int{2}, c.Rng.Intn(8), "C03")
+				c.Count("wrap_restart_cases", 1)
 				return
 			}
 			pp := pubParams{NPub: 1 + c.Rng.Intn(16), Levels: []int{2}, Conc: 1 + c.Rng.Intn(2), Budget: 1 + c.Rng.Intn(8), Yield: c.Rng.Intn(2) == 0, SettleP: c.Rng.Float64(), BigP: 0.02}
